@@ -573,6 +573,34 @@ func floatLayers(tier string) []Layer {
 			},
 		})
 	}
+	// H6: long mantissas (the decimal->binary conversion of many-word values)
+	{
+		var lens []int
+		for n := 2; n <= 80; n++ {
+			lens = append(lens, n)
+		}
+		lens = append(lens, 100, 143, 144, 145, 217)
+		layers = append(layers, Layer{
+			Name:   "H6-long-mantissas",
+			Units:  len(lens),
+			Bounds: "Float64/Float32 of n-word mantissas for every n in 2..80 ∪ {100,143,144,145,217}: uniform words (B−1, 7.7·10^18, 1) with top-word exceptions, at decimal exponents {0, 1, 19n, −30, 300}",
+			Run: func(c *Ctx, u int) {
+				n := lens[u]
+				for _, w := range []uint64{BW - 1, 7777777777777777777, 1} {
+					for _, top := range []uint64{w, BW - 1, 8 * (BW / 10), BW / 10} {
+						v := make([]uint64, n)
+						for i := range v {
+							v[i] = w
+						}
+						v[n-1] = top
+						for _, e := range []int64{0, 1, int64(19 * n), -30, 300} {
+							nearestCase(c, mkWords(e%2 != 0, v, e, 0, 0), "long")
+						}
+					}
+				}
+			},
+		})
+	}
 	return layers
 }
 
